@@ -181,6 +181,9 @@ class Norm:
                     return self.item(arg[1], path[2:])
             if base[0] == 'call' and base[1].split('#')[0].endswith('Try>::branch') and path[:2] == (('as', 0), 0) and len(base) == 3:
                 return wrap(('f', 'try', self.n(base[2])), self.npath(path[2:]))          # `x?`
+            if base[0] == 'call' and base[1].split('#')[0].endswith('core::slice::<impl [T]>::get') and len(base) == 4 and path[:2] == (('as', 1), 0):
+                # the Some payload of `slice.get(i)` is element i (the None case is a guard, seen as such by the path conditions)
+                return wrap(('el', self.n(base[2]), self.n(base[3])), self.npath(path[2:]))
             return wrap(self.n(base), self.npath(path))
         if k == 'op':
             a, b = self.n(e[2]), self.n(e[3])
